@@ -185,8 +185,18 @@ func checkC05(c C05Case, o *h.Obs) *h.Fail {
 	if wantPrec == 0 {
 		return h.Failf("bad-case", "finite operand with precision 0")
 	}
-	ex := model.SqrtX(xv, uint64(wantPrec))
-	want, _ := model.Round(ex, uint64(wantPrec), model.Mode(c.M))
+	refPrec := uint64(wantPrec)
+	if refPrec > 1<<24 {
+		// enormous receiver precisions are only used with short exact squares: the root is exact at any precision
+		// that holds it, and that is all the reference computes
+		refPrec = uint64(len(xv.Digits)) + 8
+		if e := model.SqrtX(xv, refPrec); e.Sticky {
+			return h.Failf("bad-case", "precision %d with an operand that is not a short exact square", wantPrec)
+		}
+		o.Label("enormous-precision")
+	}
+	ex := model.SqrtX(xv, refPrec)
+	want, _ := model.Round(ex, refPrec, model.Mode(c.M))
 	cls := model.Classify(ex, uint64(wantPrec))
 	o.Label("root:" + cls)
 	o.Labelf("mode:%v", model.Mode(c.M))
@@ -211,7 +221,16 @@ func checkC05(c C05Case, o *h.Obs) *h.Fail {
 
 const ruleC05 = "rapid-generated (x, receiver precision, receiver mode, x's own mode, aliasing): x constructed from its root (x = r^2 with r short, r of p..p+3 digits, or r carrying a tie / all-nines / just-above / just-below pattern at the precision; optionally perturbed by one unit far below), generic word-patterned x up to the precision bound, odd and even exponents over +-2^29, +-0 and +Inf, receiver precision 0, receiver == x, receivers that previously held negative / special / other finite values; exact squares carrying one stray digit far below, placed so that the operand's length is 19j-1..19j+2 digits. Oracle: big.Int.Sqrt of an even-exponent scaling + remainder sticky + reference Round; Prec() and Mode() after == before (precision 0 -> x's). Non-trivial = root inexact at the precision, or perfect square under a directed mode, or x.mode != z.mode. Bound: precision <= 2000 (quick) / 20000 (thorough), plus about one case in 3000 at 19456..65536 digits."
 
-var propC05 = &h.Prop[C05Case]{ID: "C05", Rule: ruleC05, Gen: genC05, Check: checkC05, Matchers: map[string]func(C05Case) bool{}}
+var propC05 = &h.Prop[C05Case]{ID: "C05", Rule: ruleC05, Gen: genC05, Check: checkC05, Matchers: map[string]func(C05Case) bool{
+	// known finding F-34: receiver precisions within 2 of MaxPrec (the branch without guard digits): the Newton
+	// loop's bound z.prec+2 wraps around 32 bits, the loop does not run, and the 17-digit first guess is returned
+	"sqrt-precision-within-2-of-MaxPrec": func(c C05Case) bool {
+		p := c.P
+		if p == 0 {
+			p = c.X.P
+		}
+		return p > model.MaxPrec-3 && c.X.F == "f"
+	}}}
 
 func TestC05(t *testing.T)       { propC05.Search(t) }
 func TestC05Replay(t *testing.T) { propC05.Replay(t) }
